@@ -130,7 +130,7 @@ package s3mem
 //@ modifies sl_has, sl_val, sl_len, sl_key, issued, it_list, it_idx, fieldof(bucketObject, name), fieldof(bucketObject, data), fieldof(bucketObject, versions), fieldof(bucketData, versionID), fieldof(bucketData, name), fieldof(bucketData, deleteMarker), fieldof(bucketData, lastModified), fieldof(bucketData, body), fieldof(bucketData, hash), fieldof(bucketData, etag), fieldof(bucketData, metadata), fieldof(Backend, versionScratch)
 
 //@ func (*bucket).rmVersion
-//@ props C05 C10 C09
+//@ props C05 C10 C09 C13
 //@ let O = objAt(b, name)
 //@ requires          inv:    bucketInv(b) && idsIssued(b)
 //@ ensures [C05]     absent: imp(!old(hasObj(b, name)), unchanged() && result.VersionID == "")
@@ -143,7 +143,7 @@ package s3mem
 //@ ensures [C05]     current: imp(old(hasObj(b, name)) && old(O.data.versionID) == versionID,
 //@                             result.VersionID == versionID && result.IsDeleteMarker == old(O.data.deleteMarker))
 //@ ensures [C05]     last:   imp(old(hasObj(b, name)) && old(O.data.versionID) == versionID && (old(O.versions) == nil || old(sl_len(O.versions)) == 0), !hasObj(b, name))
-//@ ensures [C05]     newest: imp(old(hasObj(b, name)) && old(O.data.versionID) == versionID && old(O.versions) != nil && old(sl_len(O.versions)) > 0,
+//@ ensures [C05,C13] newest: imp(old(hasObj(b, name)) && old(O.data.versionID) == versionID && old(O.versions) != nil && old(sl_len(O.versions)) > 0,
 //@                             hasObj(b, name) && O == old(O) && O.versions == old(O.versions) &&
 //@                             O.data == dyn(old(sl_val(O.versions))[old(sl_key(O.versions))[old(sl_len(O.versions)) - 1]], *bucketData) &&
 //@                             !sl_has(O.versions)[old(sl_key(O.versions))[old(sl_len(O.versions)) - 1]] &&
@@ -409,6 +409,15 @@ package s3mem
 //@ loop 2 invariant  count:  0 <= cnt && cnt == len(result.Versions) && imp(page.MaxKeys > 0, cnt < page.MaxKeys)
 //@ loop 2 invariant  mark:   result.NextKeyMarker == "" && result.NextVersionIDMarker == ""
 //@ loop 2 invariant  same:   unchanged(db) && db.buckets == old(db.buckets)
+//@ let LASTV = result.Versions[len(result.Versions) - 1]
+//@ let VID = ite(bucket.versioning != gofakes3.VersioningNone, version.versionID, "")
+//@ loop 2 step [C13] entry:  len(result.Versions) == old(len(result.Versions)) + 1 &&
+//@                             ite(version.deleteMarker,
+//@                                 typeis(LASTV, *gofakes3.DeleteMarker) && dyn(LASTV, *gofakes3.DeleteMarker).Key == version.name &&
+//@                                 dyn(LASTV, *gofakes3.DeleteMarker).VersionID == VID && dyn(LASTV, *gofakes3.DeleteMarker).IsLatest == (version == object.data),
+//@                                 typeis(LASTV, *gofakes3.Version) && dyn(LASTV, *gofakes3.Version).Key == version.name &&
+//@                                 dyn(LASTV, *gofakes3.Version).VersionID == VID && dyn(LASTV, *gofakes3.Version).IsLatest == (version == object.data) &&
+//@                                 dyn(LASTV, *gofakes3.Version).Size == len(version.body) && dyn(LASTV, *gofakes3.Version).ETag == version.etag)
 //@ uses same: inv.shape inv.own inv.vers inv.lockd -hints
 //@ uses objs: inv.shape inv.vers -hints
 //@ ensures [C13]     nobucket: imp(!hasBucket(db, bucketName), errcode(ret1) == gofakes3.ErrNoSuchBucket)
@@ -484,12 +493,21 @@ package s3mem
 //@ loop 1 hint       keepQ:  all(i, 0, old(NX), imp(listed(storedBucket.objects, i, page.Marker, *prefix) && gofakes3.mCommon(*prefix, ks(storedBucket.objects, i)),
 //@                             inP(response, gofakes3.mPart(*prefix, ks(storedBucket.objects, i)))))
 //@ loop 1 hint       done:   complete(response, storedBucket.objects, it_idx(iter.inner) + 1, page.Marker, *prefix)
+//@ loop 1 exithint   xsC:    soundC(response, storedBucket, page.Marker, *prefix)
+//@ loop 1 exithint   xsP:    soundP(response, storedBucket.objects, it_idx(iter.inner) + 1, page.Marker, *prefix)
+//@ loop 1 exithint   xasc:   ascC(response)
+//@ loop 1 exithint   xbel:   belowC(response, storedBucket.objects, it_idx(iter.inner) + 1)
+//@ uses xsC: inv.objs inv.shape inv.after inv.count inv.soundC -hints hint.pos hint.cur hint.grow
+//@ uses xsP: inv.objs inv.shape inv.after inv.count inv.pset inv.soundP -hints hint.pos hint.cur hint.keepP
+//@ uses xasc: inv.objs inv.shape inv.after inv.count inv.below inv.asc -hints hint.pos hint.cur hint.grow hint.prev
+//@ uses xbel: inv.objs inv.shape inv.after inv.count inv.below -hints hint.pos hint.cur hint.grow hint.prev
+//@ uses all: inv.shape inv.compl -hints hint.done hint.pos
 //@ uses keepC: inv.shape inv.compl -hints hint.grow hint.pos
 //@ uses keepQ: inv.shape inv.compl -hints hint.keepS hint.pos
 //@ uses done: inv.shape -hints hint.keepC hint.keepQ hint.curP hint.curC hint.pos
-//@ uses soundC: inv.objs inv.shape inv.after inv.count -hints hint.pos hint.cur hint.grow
+//@ uses soundC: inv.objs inv.shape inv.after inv.count -hints hint.pos hint.cur hint.grow hint.xsC
 //@ uses grow: inv.shape inv.soundC -hints hint.pos hint.cur
-//@ uses soundP: inv.objs inv.shape inv.after inv.count inv.pset -hints hint.pos hint.cur hint.keepP
+//@ uses soundP: inv.objs inv.shape inv.after inv.count inv.pset -hints hint.pos hint.cur hint.keepP hint.xsP
 //@ uses compl: inv.shape -hints hint.done hint.pos
 //@ uses curP: inv.objs inv.shape inv.after inv.pset inv.last -hints hint.pos hint.cur hint.keepP
 //@ uses curC: inv.objs inv.shape inv.after -hints hint.pos hint.cur hint.grow
@@ -497,7 +515,7 @@ package s3mem
 //@ uses last: inv.shape inv.pset -hints hint.keepS
 //@ uses keepS: inv.shape inv.pset -hints
 //@ uses below: inv.objs inv.shape inv.after inv.count -hints hint.pos hint.cur hint.grow hint.prev
-//@ uses asc: inv.objs inv.shape inv.after inv.count inv.below -hints hint.pos hint.cur hint.grow hint.prev
+//@ uses asc: inv.objs inv.shape inv.after inv.count inv.below -hints hint.pos hint.cur hint.grow hint.prev hint.xasc
 //@ uses skip: inv.objs inv.shape
 //@ uses pset: inv.objs inv.shape -hints
 //@ uses count: inv.objs inv.shape -hints hint.pos hint.grow hint.keepP
@@ -517,7 +535,7 @@ package s3mem
 //@ rethint           truncC: imp(ret1 == nil && ret0 != nil && ret0.IsTruncated, complete(ret0, storedBucket.objects, it_idx(iter.inner), page.Marker, *prefix))
 //@ rethint           truncB: imp(ret1 == nil && ret0 != nil && ret0.IsTruncated, all(j, 0, len(ret0.Contents), ret0.Contents[j].Key <= ret0.NextMarker))
 //@ uses truncC: inv.shape -hints hint.done hint.pos
-//@ uses truncB: inv.objs inv.shape inv.after inv.count inv.below -hints hint.pos hint.cur hint.grow hint.prev
+//@ uses truncB: inv.objs inv.shape inv.after inv.count inv.below -hints hint.pos hint.cur hint.grow hint.prev hint.xbel
 //@ ensures [C04]     next:   imp(ret1 == nil && ret0.IsTruncated, page.MaxKeys > 0 &&
 //@                             ex(v, 0, sl_len(L), ret0.NextMarker == ks(L, v) && inr(L, v, page.Marker) && complete(ret0, L, v + 1, page.Marker, PF) &&
 //@                               all(j, 0, len(ret0.Contents), ret0.Contents[j].Key <= ret0.NextMarker)))
